@@ -1,9 +1,32 @@
-(* C05 -- end-to-end property on MiniPy programs: see Py/Sem.v (reference semantics), Py/Instr.v, Py/Guard.v. *)
+(* C05 -- call and function events mirror the real call stack.
+   The events the instrumented program delivers (analysis index, hook, arguments, in order) are exactly the
+   events of the reference semantics of the source program, in which every construct reports itself once per
+   dynamic occurrence, after its operands and in execution order (Py/Sem.v, Section Ref). *)
 From Coq Require Import String List Bool.
-From DV Require Import Py.Codes.
+From DV Require Import Engine.Dispatch Py.Syntax Py.Sem Py.Instr Py.Guard Py.Refine Py.Props Py.Codes
+                       Concrete.Run Concrete.Witness.
+Import ListNotations.
+Open Scope string_scope.
+
+Theorem C05_deliveries_are_reference_deliveries :
+  forall (D : data) (analyses : list (analysis (Sem.earg (d_val D)))) (modpath : string)
+         (H : list string) (p : program) (fuel : nat) (s : state D),
+    pure_truth D -> src_prog p = true -> ok_prog H p = true ->
+    deliveries D (inst_run D analyses modpath H fuel p s) = deliveries D (ref_run D analyses modpath H fuel p s).
+Proof. exact same_deliveries. Qed.
+Print Assumptions C05_deliveries_are_reference_deliveries.
+
+(* in particular the deliveries of the hooks of this property's family *)
+Theorem C05_family_deliveries :
+  forall (D : data) (analyses : list (analysis (Sem.earg (d_val D)))) (modpath : string)
+         (H : list string) (p : program) (fuel : nat) (s : state D) (hooks : list string),
+    pure_truth D -> src_prog p = true -> ok_prog H p = true ->
+    deliveries_of D hooks (inst_run D analyses modpath H fuel p s) = deliveries_of D hooks (ref_run D analyses modpath H fuel p s).
+Proof. intros D a m H p f s hooks Hp Hs Ho. exact (same_deliveries_of D a m H p f s Hp Hs Ho hooks). Qed.
+Print Assumptions C05_family_deliveries.
+
 Theorem C05_codes_match_source : codes_ok = true.
 Proof. exact codes_ok_true. Qed.
-Print Assumptions C05_codes_match_source.
 Theorem C05_dispatch_sequences_match_source : dispatch_model_ok = true.
 Proof. exact dispatch_model_ok_true. Qed.
 Print Assumptions C05_dispatch_sequences_match_source.
